@@ -9,12 +9,15 @@ import (
 	"os"
 	"reflect"
 	"sync"
+	"sync/atomic"
 
 	sentinel "github.com/alibaba/sentinel-golang/api"
 	"github.com/alibaba/sentinel-golang/core/base"
 	"github.com/alibaba/sentinel-golang/core/hotspot"
 
+	"verif/coop"
 	"verif/sx"
+	"verif/vatomic"
 	"verif/vclock"
 	"verif/vk"
 )
@@ -403,9 +406,143 @@ func parRound(r int, rng *rand.Rand) {
 	}
 }
 
+// ---- conservation under full interleaving: the hot-parameter code against shimmed atomics AND shimmed cache locks.
+// No decision oracle here (the check/increment window makes single decisions schedule-dependent): only what every
+// schedule must satisfy - callers terminate, and when everything has been exited every value admits exactly its
+// threshold again (no unit lost, none released twice, no counter object replaced under a live entry).
+type consCase struct {
+	Thr     int64      `json:"threshold"`
+	Workers [][]string `json:"workers"` // per worker: the values it enters (and exits, after a yield) in turn
+	Strat   string     `json:"strategy"`
+	Choices []byte     `json:"choices,omitempty"`
+}
+
+func consEngine() {
+	run = vk.Start("C06", "cons")
+	defer run.Finish()
+	run.Rule("schedule = (concurrency rule threshold 1-3 on never-seen values x / y, 2-3 callers x 1-2 Entry(value) ... Exit, choice sequence at every atomic access of the hot-parameter slots and every lock acquisition of the parameter caches) under random walk, PCT d<=3 and bounded DFS; afterwards each value admits exactly its threshold; callers terminate. distinct = distinct (case, interleaving).")
+	run.Assume("Go atomics sequentially consistent; lock acquisitions are the only scheduling points inside the caches")
+	{
+		c0 := atomic.LoadUint64(&vatomic.Count)
+		hotspot.LoadRulesOfResource("c06-calib", []*hotspot.Rule{{ID: "c", Resource: "c06-calib", MetricType: hotspot.Concurrency, ParamIndex: 0, Threshold: 1}})
+		if e, b := sentinel.Entry("c06-calib", sentinel.WithArgs("x")); b == nil {
+			e.Exit()
+		}
+		hotspot.ClearRulesOfResource("c06-calib")
+		if atomic.LoadUint64(&vatomic.Count) == c0 {
+			run.Inconclusive("observability: a request through a hot-parameter concurrency rule executed no shimmed access (was the code moved?) - no interleaving can be explored")
+			return
+		}
+	}
+	gen := func(rng *rand.Rand) *consCase {
+		c := &consCase{Thr: int64(1 + rng.Intn(3))}
+		for w, k := 0, 2+rng.Intn(2); w < k; w++ {
+			var vs []string
+			for i, n := 0, 1+rng.Intn(2); i < n; i++ {
+				vs = append(vs, vk.PickS(rng, "x", "x", "x", "y"))
+			}
+			c.Workers = append(c.Workers, vs)
+		}
+		return c
+	}
+	do := func(c *consCase, ch coop.Chooser) {
+		caseNo++
+		res := fmt.Sprintf("c06cons-%d", caseNo)
+		hotspot.LoadRulesOfResource(res, []*hotspot.Rule{{ID: res, Resource: res, MetricType: hotspot.Concurrency, ParamIndex: 0, Threshold: c.Thr}})
+		defer hotspot.ClearRulesOfResource(res)
+		fns := make([]func(), len(c.Workers))
+		for w := range c.Workers {
+			w := w
+			fns[w] = func() {
+				for _, v := range c.Workers[w] {
+					e, b := sentinel.Entry(res, sentinel.WithArgs(v))
+					if b == nil {
+						coop.Yield("holding")
+						e.Exit()
+					}
+				}
+			}
+		}
+		r := coop.Run(ch, coop.Options{Adversarial: 1500, FairTail: 20000}, fns...)
+		if r.Stuck {
+			run.Abort("scheduler: a worker did not reach a yield point (wall-clock guard); the process is abandoned")
+		}
+		c.Choices = r.Choices
+		if len(r.NonTerminated) > 0 {
+			run.Violation("C06/cons:non-termination", fmt.Sprintf("callers %v did not return within 20000 fair steps", r.NonTerminated), c)
+			return
+		}
+		for w, p := range r.Panics {
+			run.Violation("C06/cons:panic", fmt.Sprintf("caller %d panicked: %s", w, p), c)
+			return
+		}
+		for _, v := range []string{"x", "y"} {
+			var held []*base.SentinelEntry
+			n := int64(0)
+			for ; n < c.Thr+3; n++ {
+				e, b := sentinel.Entry(res, sentinel.WithArgs(v))
+				if b != nil {
+					break
+				}
+				held = append(held, e)
+			}
+			for _, e := range held {
+				e.Exit()
+			}
+			if n != c.Thr {
+				run.Violation("C06/cons:conservation:capacity-after-quiescence", fmt.Sprintf("after every entry was exited value %q admitted %d entries, threshold %d", v, n, c.Thr), c)
+				return
+			}
+		}
+		run.Distinct(vk.Hash(c.Thr, c.Workers, string(r.Choices)))
+	}
+	n := run.N(4000, 300000)
+	for i := 0; i < n; i++ {
+		if run.Skip(i) {
+			continue
+		}
+		rng := run.Rand(i)
+		c := gen(rng)
+		var ch coop.Chooser
+		if i%4 == 0 {
+			c.Strat = "random"
+			ch = &coop.Random{R: rng}
+		} else {
+			d := 1 + rng.Intn(3)
+			c.Strat = fmt.Sprintf("pct-d%d", d)
+			ch = coop.NewPCT(rng, len(c.Workers), d, 40)
+		}
+		run.Eval(i)
+		if i < 2 {
+			run.Sample(c)
+		}
+		do(c, ch)
+	}
+	if !run.Replaying() {
+		for j, nd := 0, run.N(3, 40); j < nd; j++ {
+			c := gen(run.Rand(8_000_000 + j))
+			c.Workers = c.Workers[:2]
+			c.Strat = "dfs-2-preemptions"
+			d := &coop.DFS{MaxPreempt: 2}
+			cnt := 0
+			for d.Next() && cnt < 15000 {
+				cnt++
+				run.Eval(8_000_000 + j)
+				cc := *c
+				do(&cc, d)
+			}
+			run.Count("dfs_schedules", int64(cnt))
+		}
+	}
+}
+
 func main() {
 	sx.Quiet()
 	vclock.New(1900000000000)
+	if os.Getenv("VERIF_MODE") == "cons" {
+		consEngine()
+		return
+	}
 	if os.Getenv("VERIF_MODE") == "par" {
 		run = vk.Start("C06", "par")
 		defer run.Finish()
